@@ -13,10 +13,11 @@ CHECKS = {
          "and tmpfs + CPython io above the syscall layer. zstd branch absent.",
     technique="deterministic simulation: I/O interposer + exhaustive per-event fault/crash injection + shadow-disk crash states"),
  "C01": dict(level="exploration", ref="4/C01",
-    text="Seeded worlds/configs/turn sequences executed in four environments that differ only in simulator-owned nondeterminism "
-         "(steady clock; slow/fast/jumping/skewed/stalled wall clock and perf counter far from the logical now; another "
-         "PYTHONHASHSEED in a separate fresh or warm interpreter; warm re-run) and compared byte for byte on utterances, "
-         "canonical logs and snapshot bodies. Sampling, not proof.",
+    text="Seeded worlds/configs/turn sequences (incl. process restarts that boot from the snapshot directory) executed in up to "
+         "eight environments that differ only in simulator-owned nondeterminism (steady clock; slow/fast/jumping/skewed/stalled wall "
+         "clock and perf counter far from the logical now; another PYTHONHASHSEED in a separate fresh or warm interpreter; warm re-run; "
+         "two seeded thread schedules; permuted directory enumeration with tied mtimes; a process whose stage caches are already "
+         "populated; another TZ) and compared byte for byte on utterances, canonical logs and snapshot bodies. Sampling, not proof.",
     note="Trusts the clock/datetime seams to be the only time sources of the engine (grep-audited); time-driven features "
          "(wall budgets, TTLs) are kept out of the perturbation as the property scopes them.",
     technique="deterministic simulation: simulated clock fault profiles + hash-seed/process axis, differential byte comparison"),
@@ -30,7 +31,7 @@ CHECKS = {
     text="One history, two arms (configured caches vs all caches off) under the same simulated clock; histories interleave turns "
          "with graph/memory edits, agent and state switches, TTL-crossing clock advances and config changes; stage results used by "
          "the orchestrator are compared per turn; failures are explained by necessary-feature ablation and per-layer attribution.",
-    note="TTL clocks are the caches' own time_fn parameter bound to the simulated clock; fan-out/quality/hybrid are off here.",
+    note="TTL clocks are the caches' own time_fn parameter bound to the simulated clock; a fifth of the runs use the stage thread pools, a third the graph-evolution and rerank layers; a second engine state in the same process holds other content or the same graph built in another order.",
     technique="deterministic simulation: differential cached/uncached execution over seeded mutation histories with simulated TTL clock"),
  "C02": dict(level="exploration", ref="4/C02",
     text="Two arms per seed: base config B and B+ with generated validator-accepted values inside 1-3 gated-off subtrees, same world "
@@ -59,7 +60,7 @@ CHECKS = {
  "C16": dict(level="exploration", ref="4/C16",
     text="Concurrent writers append through the real append_jsonl on an interposed raw append layer whose every write is a scheduler-"
          "controlled event; LogStager is driven with the documented back-pressure protocol under several byte limits; rotation histories "
-         "are interrupted by a kill at every file-system step and continued; normalisation and compaction are checked on generated records.",
+         "are interrupted by a kill at every file-system step or by a step failing with an errno, and continued; normalisation and compaction are checked on generated records.",
     note="Atomicity of one O_APPEND write is assumed (POSIX); processes are modelled as tasks with own descriptors.",
     technique="deterministic simulation: seeded interleaving of raw append events, back-pressure schedules, kill points in rotation"),
  "C17": dict(level="exploration", ref="4/C17",
